@@ -523,6 +523,58 @@ def long_drain_stop(ctx):
                       {"finding_key": FINDING_KEY_STOPKILL, "daemon_exit": rc})
 
 
+def long_drain_sigterm(ctx):
+    """A graceful stop drains the queue however long that takes: one worker thread, three idle connections ahead of a valid
+    request (each holds the worker for the 2 s I/O limit, so the drain lasts ~6 s), then SIGTERM - not `munged --stop`, whose
+    fixed 5 s wait is the separate known finding.  The accepted request must still be answered (round 8: a work_fini that
+    gives up after 3 s and cancels the workers)."""
+    import rig, signal, socket, threading
+    exe, err = rig.build_daemon(ctx, name="munged-stop3", san=None)
+    if exe is None:
+        return
+    d = rig.Daemon(ctx, exe, tag="stopterm", nthreads=1)
+    if not d.start():
+        return
+    idle = []
+    for _ in range(3):
+        s = socket.socket(socket.AF_UNIX, socket.SOCK_STREAM); s.connect(d.sock); idle.append(s)
+    time.sleep(0.2)
+    body = rig.enc_req_body(data=b"accepted before the stop")
+    q = socket.socket(socket.AF_UNIX, socket.SOCK_STREAM); q.connect(d.sock)
+    q.sendall(rig.hdr(rig.T_ENC_REQ, 0, len(body)) + body)
+    time.sleep(0.3)
+    t0 = time.time()
+    for _ in range(3):                      # repeated: a single signal can fall into the known accept() window
+        try:
+            os.kill(d.p.pid, signal.SIGTERM)
+        except OSError:
+            break
+        time.sleep(0.05)
+    q.settimeout(20)
+    rep = b""
+    try:
+        rep = q.recv(65536)
+    except OSError:
+        pass
+    waited = time.time() - t0
+    try:
+        d.p.wait(20)
+    except Exception:
+        pass
+    rc = d.p.returncode
+    for s in idle + [q]:
+        s.close()
+    log = d.log_text()[-600:] if hasattr(d, "log_text") else ""
+    d.stop()
+    ctx.count(("stop-long-drain-sigterm",))
+    ctx.cov["long_drain_sigterm"] = {"reply_bytes": len(rep), "waited_s": round(waited, 1), "daemon_exit": rc}
+    if len(rep) < 11:
+        ctx.violation("a request accepted before SIGTERM, queued behind three idle connections on a one-thread daemon (each holds the "
+                      "worker for the 2 s I/O limit, so the drain takes ~6 s), got no reply: %d bytes after %.1f s, daemon exit %s; the "
+                      "stop did not drain the queue" % (len(rep), waited, rc),
+                      {"scenario": "long-drain-sigterm", "daemon_exit": rc, "reply_bytes": len(rep), "log_tail": log})
+
+
 def rude_phase(ctx):
     """'each such client receives its full reply' for every interleaving of acceptor and workers: with clients around that break
     their own connections (the daemon's send fails and the connection is torn down while the acceptor hands out descriptors)"""
@@ -599,6 +651,7 @@ def run(ctx):
     if not ctx.replay:
         stop_phase(ctx)
         rude_phase(ctx)
+        long_drain_sigterm(ctx)
         if ctx.thorough:
             long_drain_stop(ctx)
 
